@@ -4,11 +4,11 @@ import SleapVerif.Model.TrainTrace
 -/
 namespace SleapVerif.TrainTrace
 
-/-- Case analysis over the whole (finite) flag grid — 4 × 2 × 2 × 2 × 2 × 2 = 128 configurations —
+/-- Case analysis over the whole (finite) flag grid — 4 × 2 × 2 × 2 × 2 × 2 × 2 = 256 configurations —
 each case closed by kernel evaluation (`decide`). -/
 macro "flag_cases " f:ident : tactic =>
-  `(tactic| (rcases $f:ident with ⟨m, fw, w, c, s, d⟩
-             cases m <;> cases fw <;> cases w <;> cases c <;> cases s <;> cases d <;> decide))
+  `(tactic| (rcases $f:ident with ⟨m, fw, w, c, s, d, l⟩
+             cases m <;> cases fw <;> cases w <;> cases c <;> cases s <;> cases d <;> cases l <;> decide))
 
 /-- every file in `fs` has a blank key -/
 def FS.Blank (fs : FS) : Prop := ∀ p c, fs p = some c → c.keyBlank = true
@@ -77,40 +77,50 @@ theorem step_write_same {fs : FS} {p : Path} {c : Content} (h : fs p = some c) :
   · next hq => subst hq; exact h.symm
   · rfl
 
-/-- Further validation epochs only rewrite `best.ckpt` / `last.ckpt` with the same abstract content. -/
-theorem fsFrom_more_rounds (v : Version) (f : Flags) : ∀ (rs : List Bool) (fs : FS),
-    fs .bestCkpt = some (cfg .used (blankTrain v f) false) →
-    fs .lastCkpt = some (cfg .used (blankTrain v f) false) →
-    fsFrom fs (rs.flatMap (ckptRound v f)) = fs
+/-- Further validation epochs only rewrite the checkpoint files with the same abstract content
+(any pair of checkpoint paths; `last` only exists when `save_last`). -/
+theorem fsFrom_more_roundsP (pb pl : Path) (v : Version) (f : Flags) : ∀ (rs : List Bool) (fs : FS),
+    fs pb = some (cfg .used (blankTrain v f) false) →
+    (f.saveLast = true → fs pl = some (cfg .used (blankTrain v f) false)) →
+    fsFrom fs (rs.flatMap (ckptRoundP pb pl v f)) = fs
   | [], _, _, _ => rfl
   | r :: rs, fs, hb, hl => by
     rw [List.flatMap_cons, fsFrom_append]
-    have h1 : fsFrom fs (ckptRound v f r) = fs := by
+    have h1 : fsFrom fs (ckptRoundP pb pl v f r) = fs := by
       cases r
-      · simp [ckptRound, fsFrom]
-      · simp [ckptRound, fsFrom, step_write_same hb, step_write_same hl]
+      · simp [ckptRoundP, fsFrom]
+      · cases hsl : f.saveLast
+        · simp [ckptRoundP, fsFrom, hsl, step_write_same hb]
+        · simp [ckptRoundP, fsFrom, hsl, step_write_same hb, step_write_same (hl hsl)]
     rw [h1]
-    exact fsFrom_more_rounds v f rs fs hb hl
+    exact fsFrom_more_roundsP pb pl v f rs fs hb hl
 
-theorem fsFrom_first_round (v : Version) (f : Flags) (fs : FS) :
-    fsFrom fs (ckptRound v f true) .bestCkpt = some (cfg .used (blankTrain v f) false) ∧
-    fsFrom fs (ckptRound v f true) .lastCkpt = some (cfg .used (blankTrain v f) false) := by
-  simp [ckptRound, fsFrom, step]
+/-- Further validation epochs do not change the file system, from any starting state. -/
+theorem fsFrom_fit_any_epochsP (pb pl : Path) (hne : pb ≠ pl) (v : Version) (f : Flags) (rs : List Bool)
+    (fs : FS) :
+    fsFrom fs (fitPhaseP pb pl v f (true :: rs)) = fsFrom fs (fitPhaseP pb pl v f [true]) := by
+  unfold fitPhaseP
+  split
+  · rw [List.flatMap_cons, fsFrom_append]
+    have hb : fsFrom fs (ckptRoundP pb pl v f true) pb = some (cfg .used (blankTrain v f) false) := by
+      cases hsl : f.saveLast <;> simp [ckptRoundP, fsFrom, step, hsl, hne]
+    have hl : f.saveLast = true →
+        fsFrom fs (ckptRoundP pb pl v f true) pl = some (cfg .used (blankTrain v f) false) := by
+      intro hsl; simp [ckptRoundP, fsFrom, step, hsl]
+    rw [fsFrom_more_roundsP pb pl v f rs _ hb hl]
+    simp
+  · rfl
+
+theorem fsFrom_fit_any_epochs (v : Version) (f : Flags) (rs : List Bool) (fs : FS) :
+    fsFrom fs (fitPhase v f (true :: rs)) = fsFrom fs (fitPhase v f [true]) :=
+  fsFrom_fit_any_epochsP .bestCkpt .lastCkpt (by decide) v f rs fs
 
 /-- The file system at exit does not depend on the number of epochs (first epoch improves). -/
 theorem fsAfter_any_epochs (v : Version) (f : Flags) (rs : List Bool) :
     fsAfter (traceG v f (true :: rs)) = fsAfter (traceG v f [true]) := by
   unfold fsAfter traceG
   simp only [fsFrom_append]
-  congr 1
-  unfold fitPhase
-  split
-  · rw [List.flatMap_cons, fsFrom_append]
-    have h := fsFrom_first_round v f
-      (fsFrom (fsFrom (fsFrom FS.empty (initPhase v f)) (resavePhase v f)) (chunkPhase f))
-    rw [fsFrom_more_rounds v f rs _ h.1 h.2]
-    simp
-  · rfl
+  rw [fsFrom_fit_any_epochs]
 
 /-- A predicate holds for every event of a trace if it holds phase by phase (any number of epochs). -/
 theorem forall_mem_traceG {P : Event → Prop} (v : Version) (f : Flags) (rounds : List Bool)
@@ -166,17 +176,6 @@ theorem fsAt_head_untouched (p : Path) (c : Content) (rest : List Event)
   simp [step]
 
 /-! ## Two-run history (`use_existing_chunks`) -/
-
-/-- Further validation epochs do not change the file system, from any starting state. -/
-theorem fsFrom_fit_any_epochs (v : Version) (f : Flags) (rs : List Bool) (fs : FS) :
-    fsFrom fs (fitPhase v f (true :: rs)) = fsFrom fs (fitPhase v f [true]) := by
-  unfold fitPhase
-  split
-  · rw [List.flatMap_cons, fsFrom_append]
-    have h := fsFrom_first_round v f fs
-    rw [fsFrom_more_rounds v f rs _ h.1 h.2]
-    simp
-  · rfl
 
 theorem fsFrom_traceR_any_epochs (f : Flags) (rs : List Bool) (fs : FS) :
     fsFrom fs (traceR .repaired f (true :: rs)) = fsFrom fs (traceR .repaired f [true]) := by
@@ -238,8 +237,8 @@ theorem reuseStart_repaired (f1 : Flags) (rs : List Bool) :
   unfold reuseStart
   rw [fsAfter_any_epochs]
   funext p
-  rcases f1 with ⟨m, fw, w, c, s, d⟩
-  cases m <;> cases fw <;> cases w <;> cases c <;> cases s <;> cases d <;> cases p <;> decide
+  rcases f1 with ⟨m, fw, w, c, s, d, l⟩
+  cases m <;> cases fw <;> cases w <;> cases c <;> cases s <;> cases d <;> cases l <;> cases p <;> decide
 
 /-! ## Two-run history into the same folder -/
 
@@ -250,47 +249,19 @@ theorem age_blank {fs : FS} (h : fs.Blank) : (age fs).Blank := by
   have := h p c0 h0
   cases c0 <;> simp_all [Content.aged, Content.keyBlank]
 
-theorem fsFrom_more_roundsP (pb pl : Path) (v : Version) (f : Flags) : ∀ (rs : List Bool) (fs : FS),
-    fs pb = some (cfg .used (blankTrain v f) false) →
-    fs pl = some (cfg .used (blankTrain v f) false) →
-    fsFrom fs (rs.flatMap (ckptRoundP pb pl v f)) = fs
-  | [], _, _, _ => rfl
-  | r :: rs, fs, hb, hl => by
-    rw [List.flatMap_cons, fsFrom_append]
-    have h1 : fsFrom fs (ckptRoundP pb pl v f r) = fs := by
-      cases r
-      · simp [ckptRoundP, fsFrom]
-      · simp [ckptRoundP, fsFrom, step_write_same hb, step_write_same hl]
-    rw [h1]
-    exact fsFrom_more_roundsP pb pl v f rs fs hb hl
+theorem bestPath_ne_lastPath (a b : Bool) : bestPath a ≠ lastPath b := by
+  cases a <;> cases b <;> decide
 
-theorem fsFrom_fit_any_epochsP (pb pl : Path) (hne : pb ≠ pl) (v : Version) (f : Flags) (rs : List Bool)
-    (fs : FS) :
-    fsFrom fs (fitPhaseP pb pl v f (true :: rs)) = fsFrom fs (fitPhaseP pb pl v f [true]) := by
-  unfold fitPhaseP
-  split
-  · rw [List.flatMap_cons, fsFrom_append]
-    have hb : fsFrom fs (ckptRoundP pb pl v f true) pb = some (cfg .used (blankTrain v f) false) := by
-      simp [ckptRoundP, fsFrom, step, hne]
-    have hl : fsFrom fs (ckptRoundP pb pl v f true) pl = some (cfg .used (blankTrain v f) false) := by
-      simp [ckptRoundP, fsFrom, step]
-    rw [fsFrom_more_roundsP pb pl v f rs _ hb hl]
-    simp
-  · rfl
-
-theorem bestPath_ne_lastPath (a : Bool) : bestPath a ≠ lastPath a := by
-  cases a <;> decide
-
-theorem fsFrom_traceS_any_epochs (v : Version) (a : Bool) (f : Flags) (rs : List Bool) (fs : FS) :
-    fsFrom fs (traceS v a f (true :: rs)) = fsFrom fs (traceS v a f [true]) := by
+theorem fsFrom_traceS_any_epochs (v : Version) (a b : Bool) (f : Flags) (rs : List Bool) (fs : FS) :
+    fsFrom fs (traceS v a b f (true :: rs)) = fsFrom fs (traceS v a b f [true]) := by
   unfold traceS
   simp only [fsFrom_append]
-  rw [fsFrom_fit_any_epochsP _ _ (bestPath_ne_lastPath a)]
+  rw [fsFrom_fit_any_epochsP _ _ (bestPath_ne_lastPath a b)]
 
-theorem forall_mem_traceS {P : Event → Prop} (v : Version) (a : Bool) (f : Flags) (rounds : List Bool)
+theorem forall_mem_traceS {P : Event → Prop} (v : Version) (a b : Bool) (f : Flags) (rounds : List Bool)
     (h1 : ∀ e ∈ initPhase v f, P e) (h2 : ∀ e ∈ resavePhase v f, P e) (h3 : ∀ e ∈ chunkPhase f, P e)
-    (h4 : ∀ b, ∀ e ∈ ckptRoundP (bestPath a) (lastPath a) v f b, P e) (h5 : ∀ e ∈ finallyPhase v f, P e) :
-    ∀ e ∈ traceS v a f rounds, P e := by
+    (h4 : ∀ r, ∀ e ∈ ckptRoundP (bestPath a) (lastPath b) v f r, P e) (h5 : ∀ e ∈ finallyPhase v f, P e) :
+    ∀ e ∈ traceS v a b f rounds, P e := by
   intro e he
   simp only [traceS, List.mem_append] at he
   rcases he with (((h | h) | h) | h) | h
@@ -299,69 +270,133 @@ theorem forall_mem_traceS {P : Event → Prop} (v : Version) (a : Bool) (f : Fla
   · exact h3 e h
   · unfold fitPhaseP at h
     split at h
-    · obtain ⟨b, _, hb⟩ := List.mem_flatMap.mp h
-      exact h4 b e hb
+    · obtain ⟨r, _, hr⟩ := List.mem_flatMap.mp h
+      exact h4 r e hr
     · cases h
   · exact h5 e h
 
-theorem all_blank_traceS (a : Bool) (f : Flags) (rounds : List Bool) :
-    ∀ e ∈ traceS .repaired a f rounds, e.blank = true := by
-  refine forall_mem_traceS _ a f rounds ?_ ?_ ?_ ?_ ?_
+theorem all_blank_traceS (a b : Bool) (f : Flags) (rounds : List Bool) :
+    ∀ e ∈ traceS .repaired a b f rounds, e.blank = true := by
+  refine forall_mem_traceS _ a b f rounds ?_ ?_ ?_ ?_ ?_
   · flag_cases f
   · flag_cases f
   · flag_cases f
-  · intro b; cases a <;> cases b <;> flag_cases f
+  · intro r; cases a <;> cases b <;> cases r <;> flag_cases f
   · flag_cases f
 
-/-- The file system a completed (repaired) fresh run leaves; it depends on four flags only. -/
-def exitFS (fw : Framework) (wandb ckpt del : Bool) : FS := fun p =>
+/-- The file system a completed (repaired) fresh run leaves; it depends on five flags only. -/
+def exitFS (fw : Framework) (wandb ckpt del sl : Bool) : FS := fun p =>
   match p with
   | .initialCfg => some (cfg .supplied true false)
   | .trainingCfg => some (cfg .used true wandb)
-  | .bestCkpt | .lastCkpt => if ckpt then some (cfg .used true false) else none
+  | .bestCkpt => if ckpt then some (cfg .used true false) else none
+  | .lastCkpt => if ckpt ∧ sl then some (cfg .used true false) else none
   | .chunksCfg => if fw = .npChunks then some (cfg .prepared true false) else none
   | .trainChunks | .valChunks => if fw = .npChunks ∧ ¬ del then some .data else none
   | .bestCkptV1 | .lastCkptV1 => none
 
 theorem fsAfter_repaired_eq (f : Flags) (rs : List Bool) :
-    fsAfter (traceG .repaired f (true :: rs)) = exitFS f.fw f.wandb f.ckpt f.deleteChunks := by
+    fsAfter (traceG .repaired f (true :: rs)) = exitFS f.fw f.wandb f.ckpt f.deleteChunks f.saveLast := by
   rw [fsAfter_any_epochs]
   funext p
-  rcases f with ⟨m, fw, w, c, s, d⟩
-  cases m <;> cases fw <;> cases w <;> cases c <;> cases s <;> cases d <;> cases p <;> decide
+  rcases f with ⟨m, fw, w, c, s, d, l⟩
+  cases m <;> cases fw <;> cases w <;> cases c <;> cases s <;> cases d <;> cases l <;> cases p <;> decide
 
-/-- Exit state of run B started on top of a completed run A (given by A's four relevant flags). -/
-def SameFolderExit (fwA : Framework) (wA cA dA : Bool) (fB : Flags) : Prop :=
-    let fs := fsFrom (age (exitFS fwA wA cA dA)) (traceS .repaired cA fB [true])
+/-- The repaired trace of run B depends on B's model type / structured flag not at all. -/
+def canonB (fw : Framework) (w c d l : Bool) : Flags := ⟨.centroid, fw, w, c, false, d, l⟩
+
+theorem traceS_canon (a b : Bool) (fB : Flags) (r : List Bool) :
+    traceS .repaired a b fB r
+      = traceS .repaired a b (canonB fB.fw fB.wandb fB.ckpt fB.deleteChunks fB.saveLast) r := by
+  rcases fB with ⟨m, fw, w, c, s, d, l⟩
+  rfl
+
+/-- Exit state of run B started on top of a completed run A (A, B given by their relevant flags). -/
+def SameFolderExit (fwA : Framework) (wA cA dA lA : Bool) (fwB : Framework) (wB cB dB lB : Bool) : Prop :=
+    let fs := fsFrom (age (exitFS fwA wA cA dA lA))
+      (traceS .repaired cA (cA && lA) (canonB fwB wB cB dB lB) [true])
     fs .initialCfg = some (cfg .supplied true false) ∧
-    fs .trainingCfg = some (cfg .used true fB.wandb) ∧
-    fs (bestPath cA) = (if fB.ckpt then some (cfg .used true false) else none) ∧
-    fs (lastPath cA) = (if fB.ckpt then some (cfg .used true false) else none) ∧
-    (cA = true → fs .bestCkpt = some (cfg .stale true false) ∧
-                 fs .lastCkpt = some (cfg .stale true false)) ∧
-    fs .chunksCfg = (if fB.fw = .npChunks then some (cfg .prepared true false)
+    fs .trainingCfg = some (cfg .used true wB) ∧
+    fs (bestPath cA) = (if cB then some (cfg .used true false) else none) ∧
+    fs (lastPath (cA && lA)) = (if cB ∧ lB then some (cfg .used true false) else none) ∧
+    (cA = true → fs .bestCkpt = some (cfg .stale true false)) ∧
+    (cA = true → lA = true → fs .lastCkpt = some (cfg .stale true false)) ∧
+    fs .chunksCfg = (if fwB = .npChunks then some (cfg .prepared true false)
                      else if fwA = .npChunks then some (cfg .stale true false) else none) ∧
-    fs .trainChunks = (if fB.fw = .npChunks then (if fB.deleteChunks then none else some .data)
+    fs .trainChunks = (if fwB = .npChunks then (if dB then none else some .data)
                        else if fwA = .npChunks ∧ ¬ dA then some .data else none) ∧
-    fs .valChunks = (if fB.fw = .npChunks then (if fB.deleteChunks then none else some .data)
+    fs .valChunks = (if fwB = .npChunks then (if dB then none else some .data)
                      else if fwA = .npChunks ∧ ¬ dA then some .data else none)
 
-/-! A finite table (16 × 128 cases), each by kernel evaluation; split in four to keep each lemma short. -/
-theorem same_folder_exit_tf (wA dA : Bool) (fB : Flags) : SameFolderExit .torchDataset wA false dA fB := by
-  unfold SameFolderExit; cases wA <;> cases dA <;> flag_cases fB
-theorem same_folder_exit_tt (wA dA : Bool) (fB : Flags) : SameFolderExit .torchDataset wA true dA fB := by
-  unfold SameFolderExit; cases wA <;> cases dA <;> flag_cases fB
-theorem same_folder_exit_nf (wA dA : Bool) (fB : Flags) : SameFolderExit .npChunks wA false dA fB := by
-  unfold SameFolderExit; cases wA <;> cases dA <;> flag_cases fB
-theorem same_folder_exit_nt (wA dA : Bool) (fB : Flags) : SameFolderExit .npChunks wA true dA fB := by
-  unfold SameFolderExit; cases wA <;> cases dA <;> flag_cases fB
+/-! A finite table (32 × 32 cases), each by kernel evaluation; split in four to keep each lemma short. -/
+set_option hygiene false in
+macro "same_folder_table" : tactic =>
+  `(tactic| (unfold SameFolderExit
+             cases wA <;> cases dA <;> cases lA <;> cases fwB <;> cases wB <;> cases cB <;> cases dB
+               <;> cases lB <;> decide))
 
-theorem same_folder_exit (fwA : Framework) (wA cA dA : Bool) (fB : Flags) :
-    SameFolderExit fwA wA cA dA fB := by
+theorem same_folder_exit_tf (wA dA lA : Bool) (fwB : Framework) (wB cB dB lB : Bool) :
+    SameFolderExit .torchDataset wA false dA lA fwB wB cB dB lB := by same_folder_table
+theorem same_folder_exit_tt (wA dA lA : Bool) (fwB : Framework) (wB cB dB lB : Bool) :
+    SameFolderExit .torchDataset wA true dA lA fwB wB cB dB lB := by same_folder_table
+theorem same_folder_exit_nf (wA dA lA : Bool) (fwB : Framework) (wB cB dB lB : Bool) :
+    SameFolderExit .npChunks wA false dA lA fwB wB cB dB lB := by same_folder_table
+theorem same_folder_exit_nt (wA dA lA : Bool) (fwB : Framework) (wB cB dB lB : Bool) :
+    SameFolderExit .npChunks wA true dA lA fwB wB cB dB lB := by same_folder_table
+
+theorem same_folder_exit (fwA : Framework) (wA cA dA lA : Bool) (fwB : Framework) (wB cB dB lB : Bool) :
+    SameFolderExit fwA wA cA dA lA fwB wB cB dB lB := by
   cases fwA <;> cases cA
-  · exact same_folder_exit_tf wA dA fB
-  · exact same_folder_exit_tt wA dA fB
-  · exact same_folder_exit_nf wA dA fB
-  · exact same_folder_exit_nt wA dA fB
+  · exact same_folder_exit_tf wA dA lA fwB wB cB dB lB
+  · exact same_folder_exit_tt wA dA lA fwB wB cB dB lB
+  · exact same_folder_exit_nf wA dA lA fwB wB cB dB lB
+  · exact same_folder_exit_nt wA dA lA fwB wB cB dB lB
+
+/-! ## Aborted runs -/
+
+theorem step_congr_at {fs1 fs2 : FS} {p : Path} (h : fs1 p = fs2 p) (e : Event) :
+    step fs1 e p = step fs2 e p := by
+  cases e with
+  | write q c => simp only [step]; split <;> simp_all
+  | delete q => simp only [step]; split <;> simp_all
+  | raise => exact h
+
+/-- The content of a path after a trace depends only on its content before. -/
+theorem fsFrom_congr_at : ∀ (l : List Event) {fs1 fs2 : FS} {p : Path}, fs1 p = fs2 p →
+    fsFrom fs1 l p = fsFrom fs2 l p
+  | [], _, _, _, h => h
+  | e :: l, _, _, _, h => by
+    simp only [fsFrom, List.foldl_cons]
+    exact fsFrom_congr_at l (step_congr_at h e)
+
+/-- The checkpoint writes of `fit` touch nothing but `best.ckpt` / `last.ckpt`. -/
+theorem fsFrom_fit_untouched (v : Version) (f : Flags) (rounds : List Bool) (fs : FS) (p : Path)
+    (hb : p ≠ .bestCkpt) (hl : p ≠ .lastCkpt) : fsFrom fs (fitPhase v f rounds) p = fs p := by
+  apply fsFrom_untouched
+  intro e he
+  unfold fitPhase at he
+  split at he
+  · obtain ⟨r, _, hr⟩ := List.mem_flatMap.mp he
+    cases r
+    · simp [ckptRound] at hr
+    · simp only [ckptRound, ↓reduceIte, List.mem_cons] at hr
+      rcases hr with rfl | hr
+      · simp [Event.touches, Ne.symm hb]
+      · split at hr
+        · rcases List.mem_singleton.mp hr with rfl
+          simp [Event.touches, Ne.symm hl]
+        · cases hr
+  · cases he
+
+/-- Outside the checkpoint files, an aborted run leaves what a run with no validation epoch leaves. -/
+theorem fsAfter_abort_at (v : Version) (f : Flags) (rounds : List Bool) (p : Path)
+    (hb : p ≠ .bestCkpt) (hl : p ≠ .lastCkpt) :
+    fsAfter (traceAbort v f rounds) p = fsAfter (traceG v f []) p := by
+  unfold fsAfter traceAbort traceG
+  simp only [fsFrom_append]
+  have hr : ∀ fs : FS, fsFrom fs [Event.raise] = fs := fun _ => rfl
+  rw [hr]
+  apply fsFrom_congr_at
+  rw [fsFrom_fit_untouched v f rounds _ p hb hl, fsFrom_fit_untouched v f [] _ p hb hl]
 
 end SleapVerif.TrainTrace
